@@ -47,4 +47,15 @@ def run(tier, seed):
                              'counted_as_proved': False})
         if bad:
             pack.violation(name, {'bounded': True, 'inputs': bad, 'native_cmd': 'contracts/bounded_tds_rule.py'})
+    # the time constants the rule is evaluated with follow parameter changes made between segments of a run (Model.set -> dae.Tf, Teye)
+    from contracts import fn_pu
+    run_contracts(pack, [(fn_pu.model_set('C04', 'v'), None, fn_pu.replay_model_set)])
+    name = 'C04/andes/routines/tds.py:TDS.run/bounded:steps-after-a-time-constant-change-satisfy-the-rule-with-the-new-value'
+    r = native_guard(pack, name, BT.run_altered)
+    if r is not None:
+        n, bad = r
+        pack.bounded.append({'function': 'TDS.run resumed after Model.alter of a time constant (end to end)', 'kind': 'bounded native: kundur_full, GENROU.M doubled at 0.5 s',
+                             'steps': n, 'counted_as_proved': False})
+        if bad:
+            pack.violation(name, {'bounded': True, 'inputs': bad, 'native_cmd': 'contracts/bounded_tds_rule.py run_altered'})
     return pack.finish()
